@@ -99,7 +99,10 @@ def image_case(rng):
             text += " %s%s%s" % (q, path_arg, q)
             if kind in ("make_wav", "make_turbo_wav") and rng.random() < 0.7:
                 ln = rng.choice([0, 1, 8, 15, 16, 16, rng.randint(0, 16)])
-                tape = "".join(rng.choice("ABCDEFGHIJKLMNOPQRSTUVWXYZabcxyz0123456789 .-_") for _ in range(ln))
+                alphabet = "ABCDEFGHIJKLMNOPQRSTUVWXYZabcxyz0123456789 .-_"
+                if rng.random() < 0.25:
+                    alphabet = "АБВГДЕЖЗИКЛМНОПРСТУФХЦЧШЩЫЭЮЯабвгдежзиклмн 0123456789"
+                tape = "".join(rng.choice(alphabet) for _ in range(ln))
                 q2 = gen.quote_for(rng, tape)
                 text += ", %s%s%s" % (q2, tape, q2)
         stmts.insert(rng.randint(0, len(stmts)), gen.Stmt(text, "make", {"kind": kind, "path_arg": path_arg, "tape": tape}))
